@@ -851,8 +851,16 @@ static void runRpdac(const Case &c) {
           string q = unhex(h); size_t n = q.size(); q.push_back('\0');
           qa += (qa.empty() ? "" : ",") + std::to_string(d->locate((uchar *)q.data(), (uint)n));
         }
-      emit("RD t=%llu rules=%s seqs=%s loc=%s abs=%s", (unsigned long long)rp->terminals, rules.empty() ? "-" : rules.c_str(),
-           seqs.empty() ? "-" : seqs.c_str(), loc.empty() ? "-" : loc.c_str(), qa.empty() ? "-" : qa.c_str());
+      string pre;
+      if (op.size() > 2 && op[2] != "-")
+        for (auto &h : splitc(op[2])) {
+          string q = unhex(h); size_t n = q.size(); q.push_back('\0');
+          IteratorDictIDContiguous *it = (IteratorDictIDContiguous *)d->locatePrefix((uchar *)q.data(), (uint)n);
+          pre += (pre.empty() ? "" : ",") + std::to_string(it->getLeftLimit()) + ":" + std::to_string(it->getRightLimit());
+          delete it;
+        }
+      emit("RD t=%llu rules=%s seqs=%s loc=%s abs=%s pre=%s", (unsigned long long)rp->terminals, rules.empty() ? "-" : rules.c_str(),
+           seqs.empty() ? "-" : seqs.c_str(), loc.empty() ? "-" : loc.c_str(), qa.empty() ? "-" : qa.c_str(), pre.empty() ? "-" : pre.c_str());
     } else emit("ERR unknown-op");
   }
   delete d;
